@@ -16,6 +16,10 @@ spec keys
       adims: action box widths (product == nA), dimension 1..2
       edims: event box widths (product == nE), dimension 1..3
       prob_shape: "scalar" | "array1" (1-element array, as De Moor returns)
+      aoff / eoff: 0 | 1 (default 0). With 1 the action (event) vectors start at 1 in every coordinate, so the all-zero vector
+             is NOT an action (event); the problem then answers a vector outside its space with a POISON outcome (reward
+             +1e9*scale; for a foreign event also probability 1), so that any phantom action or event a solver invents
+             (e.g. zero padding of an action or event axis) shows up in the values instead of aliasing a real one.
 """
 
 from __future__ import annotations
@@ -48,11 +52,11 @@ def state_vectors(spec) -> np.ndarray:
 
 
 def action_vectors(spec) -> np.ndarray:
-    return _unravel(spec["nA"], spec["enc"]["adims"])
+    return _unravel(spec["nA"], spec["enc"]["adims"]) + int(spec["enc"].get("aoff", 0))
 
 
 def event_vectors(spec) -> np.ndarray:
-    return _unravel(spec["nE"], spec["enc"]["edims"])
+    return _unravel(spec["nE"], spec["enc"]["edims"]) + int(spec["enc"].get("eoff", 0))
 
 
 def make_problem(spec):
@@ -87,11 +91,23 @@ def make_problem(spec):
             return jnp.clip(jnp.round((state[0] - 0.25) * 2).astype(jnp.int32), 0, nS - 1)
         return jnp.clip(state[0] - 3, 0, nS - 1)
 
+    aoff, eoff = int(enc.get("aoff", 0)), int(enc.get("eoff", 0))
+    poison = 1e9 * float(spec.get("scale", 1.0))
+
     def a_index(action):
-        return jnp.ravel_multi_index(tuple(action), adims, mode="clip")
+        return jnp.ravel_multi_index(tuple(action - aoff), adims, mode="clip")
 
     def e_index(event):
-        return jnp.ravel_multi_index(tuple(event), edims, mode="clip")
+        return jnp.ravel_multi_index(tuple(event - eoff), edims, mode="clip")
+
+    def foreign(action, event):
+        # True when the action or the event vector lies outside the problem's own spaces (only possible with aoff/eoff)
+        bad = jnp.zeros((), dtype=bool)
+        if aoff:
+            bad = bad | jnp.any(action < aoff) | jnp.any(action - aoff >= jnp.asarray(adims))
+        if eoff:
+            bad = bad | jnp.any(event < eoff) | jnp.any(event - eoff >= jnp.asarray(edims))
+        return bad
 
     class Tabular(Problem):
         @property
@@ -112,12 +128,16 @@ def make_problem(spec):
 
         def random_event_probability(self, state, action, random_event):
             p = prb[s_index(state), a_index(action), e_index(random_event)]
+            if eoff:
+                p = jnp.where(foreign(action, random_event), 1.0, p)
             if prob_shape == "array1":
                 return p.reshape(1)
             return p
 
         def transition(self, state, action, random_event):
             s, a, e = s_index(state), a_index(action), e_index(random_event)
+            if aoff or eoff:
+                return S_j[nxt[s, a, e]], jnp.where(foreign(action, random_event), poison, rew[s, a, e])
             return S_j[nxt[s, a, e]], rew[s, a, e]
 
     if v0 is not None:
